@@ -233,3 +233,6 @@ fn k_aq_7_abandoned_frame_is_clean() {
     vcover!();
     std::mem::forget(q);
 }
+pub(crate) fn is_untracked(q: &ActiveQuery) -> bool {
+    q.untracked_read
+}
